@@ -1,8 +1,517 @@
 (* C01 — proofs *)
-From Coq Require Import ZArith QArith Qround List Bool Lia Lra.
+From Coq Require Import ZArith QArith Qround List Bool Lia Lqa Setoid.
 Require Import QV.common.Util QV.C01.Model QV.C01.Spec.
 Import ListNotations.
 Open Scope Q_scope.
+Arguments Qred : simpl never.
+Arguments Qplus : simpl never.
+Arguments Qminus : simpl never.
+Arguments Qmult : simpl never.
+Arguments Qdiv : simpl never.
+Arguments Qopp : simpl never.
+Arguments Qinv : simpl never.
+Arguments Qle_bool : simpl never.
+Arguments Qeq_bool : simpl never.
+Arguments Qfloor : simpl never.
+Arguments inject_Z : simpl never.
+Arguments Z.to_nat : simpl never.
 
-Lemma at_nil : forall c t, at_ [] c t = None.
-Proof. reflexivity. Qed.
+(* ---------------------------------------------------------------------------------------------------------- *)
+(* rationals *)
+Lemma Qle_bool_compat a a' b b' : a == a' -> b == b' -> Qle_bool a b = Qle_bool a' b'.
+Proof.
+  intros Ha Hb. destruct (Qle_bool a b) eqn:E; symmetry.
+  - apply Qle_bool_iff in E. apply Qle_bool_iff. rewrite <- Ha, <- Hb. exact E.
+  - destruct (Qle_bool a' b') eqn:E'; auto. apply Qle_bool_iff in E'. rewrite <- Ha, <- Hb in E'.
+    apply Qle_bool_iff in E'. congruence.
+Qed.
+Lemma Qltb'_compat a a' b b' : a == a' -> b == b' -> Qltb' a b = Qltb' a' b'.
+Proof. intros. unfold Qltb'. f_equal. apply Qle_bool_compat; auto. Qed.
+Lemma Qltb'_true a b : Qltb' a b = true <-> a < b.
+Proof.
+  unfold Qltb'. rewrite negb_true_iff. split; intro H.
+  - apply Qnot_le_lt. intro L. apply Qle_bool_iff in L. congruence.
+  - destruct (Qle_bool b a) eqn:E; auto. apply Qle_bool_iff in E. exfalso. lra.
+Qed.
+Lemma Qltb'_false a b : Qltb' a b = false <-> b <= a.
+Proof.
+  unfold Qltb'. rewrite negb_false_iff. apply Qle_bool_iff.
+Qed.
+Lemma Qeq_bool_compat a a' b b' : a == a' -> b == b' -> Qeq_bool a b = Qeq_bool a' b'.
+Proof.
+  intros Ha Hb. destruct (Qeq_bool a b) eqn:E; symmetry.
+  - apply Qeq_bool_iff in E. apply Qeq_bool_iff. rewrite <- Ha, <- Hb. exact E.
+  - destruct (Qeq_bool a' b') eqn:E'; auto. apply Qeq_bool_iff in E'. rewrite <- Ha, <- Hb in E'.
+    apply Qeq_bool_iff in E'. congruence.
+Qed.
+Lemma Qred_eq a b : a == b -> Qred a = Qred b.
+Proof. apply Qred_complete. Qed.
+
+(* option Q up to Qeq *)
+Definition oeq (a b : option Q) : Prop :=
+  match a, b with Some x, Some y => x == y | None, None => True | _, _ => False end.
+Lemma oeq_refl a : oeq a a.
+Proof. destruct a; simpl; auto. reflexivity. Qed.
+Lemma oeq_trans a b c : oeq a b -> oeq b c -> oeq a c.
+Proof. destruct a, b, c; simpl; intros; try tauto. etransitivity; eauto. Qed.
+Lemma oeq_sym a b : oeq a b -> oeq b a.
+Proof. destruct a, b; simpl; intros; try tauto. symmetry; auto. Qed.
+
+(* ---------------------------------------------------------------------------------------------------------- *)
+(* induction principle for waveforms *)
+Section wf_ind2.
+  Variable P : wf -> Prop.
+  Hypothesis Hc : forall d c v, P (WConst d c v).
+  Hypothesis Ht : forall c tbl, P (WTable c tbl).
+  Hypothesis Hs : forall l, Forall P l -> P (WSeq l).
+  Hypothesis Hm : forall l, Forall P l -> P (WMulti l).
+  Hypothesis Hr : forall b n, P b -> P (WRep b n).
+  Hypothesis Htr : forall w tr, P w -> P (WTrans w tr).
+  Hypothesis Ha : forall l op r, P l -> P r -> P (WArith l op r).
+  Hypothesis Hn : forall w, P w -> P (WNeg w).
+  Hypothesis Hv : forall w, P w -> P (WRev w).
+  Fixpoint wf_ind2 (w : wf) : P w :=
+    match w with
+    | WConst d c v => Hc d c v
+    | WTable c tbl => Ht c tbl
+    | WSeq l => Hs l ((fix go (l : list wf) : Forall P l :=
+                         match l with [] => Forall_nil _ | x :: r => Forall_cons _ (wf_ind2 x) (go r) end) l)
+    | WMulti l => Hm l ((fix go (l : list wf) : Forall P l :=
+                           match l with [] => Forall_nil _ | x :: r => Forall_cons _ (wf_ind2 x) (go r) end) l)
+    | WRep b n => Hr b n (wf_ind2 b)
+    | WTrans w tr => Htr w tr (wf_ind2 w)
+    | WArith l op r => Ha l op r (wf_ind2 l) (wf_ind2 r)
+    | WNeg w => Hn w (wf_ind2 w)
+    | WRev w => Hv w (wf_ind2 w)
+    end.
+End wf_ind2.
+
+(* sampling depends on the time only up to equality of rationals (Leibniz-equal results) *)
+Lemma table_sample_proper : forall rest prev t t' acc, t == t' ->
+  table_sample prev rest t acc = table_sample prev rest t' acc.
+Proof.
+  induction rest as [|e r IH]; intros prev t t' acc H; simpl; auto.
+  rewrite (Qle_bool_compat (et prev) (et prev) t t'), (Qle_bool_compat t t' (et e) (et e)); auto; try reflexivity.
+  assert (Hi : interp_at (ei e) (et prev) (ev prev) (et e) (ev e) t = interp_at (ei e) (et prev) (ev prev) (et e) (ev e) t').
+  { unfold interp_at. destruct (ei e); auto. destruct (Qeq_bool (et e) (et prev)); auto.
+    f_equal. apply Qred_eq. rewrite H. reflexivity. }
+  rewrite Hi. apply IH; auto.
+Qed.
+
+Lemma Qfloor_compat a b : a == b -> Qfloor a = Qfloor b.
+Proof. intro H. rewrite H. reflexivity. Qed.
+
+Lemma wsample_proper : forall w c t t', t == t' -> wsample w c t = wsample w c t'.
+Proof.
+  induction w using wf_ind2; intros ch t t' Ht; simpl; auto.
+  - destruct tbl; auto. apply table_sample_proper; auto.
+  - generalize 0 as start. induction H as [|x r Hx _ IH]; intros start; simpl; auto.
+    rewrite (Qle_bool_compat start start t t'), (Qltb'_compat t t' (Qred (start + wdur x)) (Qred (start + wdur x)));
+      auto; try reflexivity.
+    destruct (Qle_bool start t' && Qltb' t' (Qred (start + wdur x))).
+    + apply Hx. rewrite Ht. reflexivity.
+    + apply IH.
+  - induction H as [|x r Hx _ IH]; simpl; auto.
+    destruct (cmem ch (wchans x)); auto.
+  - destruct (Qle_bool (wdur w) 0); auto.
+    assert (Hk : Qfloor (t / wdur w) = Qfloor (t' / wdur w)) by (apply Qfloor_compat; rewrite Ht; reflexivity).
+    rewrite Hk. destruct ((0 <=? Qfloor (t' / wdur w))%Z && (Qfloor (t' / wdur w) <? n)%Z); auto.
+    apply IHw. rewrite Ht. reflexivity.
+  - f_equal. f_equal. apply map_ext. intros ic. f_equal. apply IHw; auto.
+  - rewrite (IHw1 ch t t' Ht), (IHw2 ch t t' Ht). reflexivity.
+  - rewrite (IHw ch t t' Ht). reflexivity.
+  - apply IHw. rewrite Ht. reflexivity.
+Qed.
+
+(* ---------------------------------------------------------------------------------------------------------- *)
+(* lists *)
+Lemma repeat_app_comm {A} n (l : list A) : repeat_app n l ++ l = l ++ repeat_app n l.
+Proof. induction n; simpl; [rewrite app_nil_r; auto|]. rewrite <- app_assoc, IHn. reflexivity. Qed.
+Lemma repeat_app_rev {A} n (l : list A) : rev (repeat_app n l) = repeat_app n (rev l).
+Proof. induction n; simpl; auto. rewrite rev_app_distr, IHn, repeat_app_comm. reflexivity. Qed.
+Lemma repeat_app_map {A B} (f : A -> B) n l : map f (repeat_app n l) = repeat_app n (map f l).
+Proof. induction n; simpl; auto. rewrite map_app, IHn. reflexivity. Qed.
+Lemma Forall2_repeat_app {A B} (R : A -> B -> Prop) n l l' :
+  Forall2 R l l' -> Forall2 R (repeat_app n l) (repeat_app n l').
+Proof. intros H. induction n; simpl; [constructor|]. apply Forall2_app; auto. Qed.
+Lemma Forall2_rev {A B} (R : A -> B -> Prop) l l' : Forall2 R l l' -> Forall2 R (rev l) (rev l').
+Proof. induction 1; simpl; [constructor|]. apply Forall2_app; auto. Qed.
+Lemma Forall2_map {A B C D} (R : C -> D -> Prop) (f : A -> C) (g : B -> D) l l' :
+  Forall2 (fun a b => R (f a) (g b)) l l' -> Forall2 R (map f l) (map g l').
+Proof. induction 1; simpl; constructor; auto. Qed.
+Lemma Forall2_map_inv {A B C D} (R : C -> D -> Prop) (f : A -> C) (g : B -> D) l l' :
+  Forall2 R (map f l) (map g l') -> Forall2 (fun a b => R (f a) (g b)) l l'.
+Proof.
+  revert l'. induction l; intros [|b l'] H; simpl in H; inversion H; subst; constructor; auto.
+Qed.
+
+(* ---------------------------------------------------------------------------------------------------------- *)
+(* program trees *)
+Section loop_ind2.
+  Variable P : loop -> Prop.
+  Hypothesis Hl : forall n w, P (Leaf n w).
+  Hypothesis Hn : forall n cs, Forall P cs -> P (Nest n cs).
+  Fixpoint loop_ind2 (l : loop) : P l :=
+    match l with
+    | Leaf n w => Hl n w
+    | Nest n cs => Hn n cs ((fix go (cs : list loop) : Forall P cs :=
+                               match cs with [] => Forall_nil _ | x :: r => Forall_cons _ (loop_ind2 x) (go r) end) cs)
+    end.
+End loop_ind2.
+
+Definition flatten_list (cs : list loop) : list wf := flat_map flatten cs.
+
+Lemma flatten_nest n cs : flatten (Nest n cs) = repeat_app (Z.to_nat n) (flatten_list cs).
+Proof.
+  reflexivity.
+Qed.
+
+Lemma flatten_reverse : forall l, flatten (reverse_loop l) = rev (map wreversed (flatten l)).
+Proof.
+  induction l using loop_ind2.
+  - simpl. rewrite repeat_app_map, repeat_app_rev. reflexivity.
+  - change (reverse_loop (Nest n cs)) with
+      (Nest n ((fix go (cs : list loop) : list loop := match cs with [] => [] | x :: r => go r ++ [reverse_loop x] end) cs)).
+    rewrite !flatten_nest. rewrite repeat_app_map, repeat_app_rev. f_equal.
+    unfold flatten_list. induction H as [|x r Hx _ IH]; simpl; auto.
+    rewrite flat_map_app. simpl. rewrite app_nil_r. rewrite IH, Hx. rewrite map_app, rev_app_distr. reflexivity.
+Qed.
+
+(* ---------------------------------------------------------------------------------------------------------- *)
+(* a leaf waveform plays a piece: same duration, same channels, same samples on the CLOSED interval [0, d] *)
+Definition chans_same (a b : list chan) : Prop := forall c, cmem c a = cmem c b.
+
+Definition leaf_matches (w : wf) (p : piece) : Prop :=
+  wdur w == pdur p /\ 0 < pdur p /\ chans_same (wchans w) (pchans p) /\
+  forall c t, cmem c (pchans p) = true -> 0 <= t -> t <= pdur p -> oeq (wsample w c t) (pval p c t).
+
+Definition ptr (gt : option trafo) (p : piece) : piece :=
+  match gt with Some tr => piece_trafo tr p | None => p end.
+
+Definition olist {A} (o : option A) : list A := match o with Some a => [a] | None => [] end.
+
+Lemma total_cons p r : total (p :: r) == pdur p + total r.
+Proof. unfold total; simpl. apply Qred_correct. Qed.
+
+(* half-open junctions: the unrolled leaves play what the pieces denote *)
+Lemma play_at : forall ws pcs, Forall2 leaf_matches ws pcs ->
+  forall c t, Forall (fun p => cmem c (pchans p) = true) pcs ->
+  0 <= t -> t < total pcs -> oeq (play_leaves ws c t) (at_ pcs c t).
+Proof.
+  induction 1 as [|w p ws pcs Hm _ IH]; intros c t Hc H0 Ht.
+  - simpl. exact I.
+  - destruct Hm as (Hd & Hp & _ & Hs). inversion Hc; subst. simpl.
+    rewrite (Qltb'_compat t t (wdur w) (pdur p)); [|reflexivity|exact Hd].
+    destruct (Qltb' t (pdur p)) eqn:E.
+    + apply Qltb'_true in E. apply Hs; auto; lra.
+    + apply Qltb'_false in E. rewrite (Qred_eq (t - wdur w) (t - pdur p)) by (rewrite Hd; reflexivity).
+      rewrite total_cons in Ht.
+      apply IH; auto; rewrite Qred_correct; lra.
+Qed.
+
+Lemma leaves_dur_total : forall ws pcs, Forall2 leaf_matches ws pcs -> leaves_dur ws == total pcs.
+Proof.
+  induction 1 as [|w p ws pcs Hm _ IH]; [reflexivity|].
+  unfold leaves_dur, total in *; simpl. rewrite !Qred_correct. destruct Hm as (Hd & _). rewrite Hd, IH. reflexivity.
+Qed.
+
+(* time reversal of a leaf = the mirrored piece *)
+Lemma leaf_rev w q : leaf_matches w q -> leaf_matches (wreversed w) (mirror q).
+Proof.
+  intros (Hd & Hp & Hc & Hs).
+  assert (G : leaf_matches (WRev w) (mirror q)).
+  { repeat split; auto. intros c t Hin H0 H1. simpl in *.
+    rewrite (Qred_eq (wdur w - t) (pdur q - t)) by (rewrite Hd; reflexivity).
+    apply Hs; auto; rewrite Qred_correct; lra. }
+  destruct w; try exact G.
+  (* constant waveforms are their own reverse: convertible with G *)
+  - (* ReversedWaveform.reversed() is the inner waveform *)
+    simpl in *. repeat split; auto. intros ch t Hin H0 H1. simpl.
+    assert (E : wsample w ch (Qred (wdur w - Qred (pdur q - t))) = wsample w ch t).
+    { apply wsample_proper. rewrite !Qred_correct. rewrite Hd. ring. }
+    cbn in H1, Hin. rewrite <- E. apply (Hs ch (Qred (pdur q - t))); auto; rewrite Qred_correct; lra.
+Qed.
+
+Lemma ptr_mirror gt p : ptr gt (mirror p) = mirror (ptr gt p).
+Proof. destruct gt; reflexivity. Qed.
+
+Lemma Forall2_rev_leaves gt : forall pcs L, Forall2 leaf_matches L (map (ptr gt) pcs) ->
+  Forall2 leaf_matches (map wreversed L) (map (ptr gt) (map mirror pcs)).
+Proof.
+  induction pcs as [|p r IH]; intros L H; simpl in *; inversion H; subst; simpl; constructor.
+  - rewrite ptr_mirror. apply leaf_rev; auto.
+  - apply IH; auto.
+Qed.
+
+Lemma Forall2_nil_map {A B C} (R : A -> C -> Prop) (f : B -> C) l : Forall2 R [] (map f l) -> l = [].
+Proof. destruct l; simpl; intro H; auto. inversion H. Qed.
+
+(* ---------------------------------------------------------------------------------------------------------- *)
+(* templates *)
+Section pt_ind2.
+  Variable P : pt -> Prop.
+  Hypothesis Ha : forall a, P (PAtom a).
+  Hypothesis Hs : forall l, Forall P l -> P (PSeq l).
+  Hypothesis Hr : forall n b, P b -> P (PRep n b).
+  Hypothesis Hf : forall i a b c body, P body -> P (PFor i a b c body).
+  Hypothesis Hm : forall pm chm b, P b -> P (PMap pm chm b).
+  Hypothesis Hv : forall b, P b -> P (PRev b).
+  Hypothesis Hp : forall b ow, P b -> P (PPar b ow).
+  Hypothesis Hx : forall l op sc b, P b -> P (PArith l op sc b).
+  Fixpoint pt_ind2 (p : pt) : P p :=
+    match p with
+    | PAtom a => Ha a
+    | PSeq l => Hs l ((fix go (l : list pt) : Forall P l :=
+                         match l with [] => Forall_nil _ | x :: r => Forall_cons _ (pt_ind2 x) (go r) end) l)
+    | PRep n b => Hr n b (pt_ind2 b)
+    | PFor i a b c body => Hf i a b c body (pt_ind2 body)
+    | PMap pm chm b => Hm pm chm b (pt_ind2 b)
+    | PRev b => Hv b (pt_ind2 b)
+    | PPar b ow => Hp b ow (pt_ind2 b)
+    | PArith l op sc b => Hx l op sc b (pt_ind2 b)
+    end.
+End pt_ind2.
+
+(* the atomic obligation: what build_waveform + the atomic emission (global transformation, constant shortcut)
+   produce plays the atom's piece *)
+Definition atom_ok (G : option trafo -> Prop) (a : atom) : Prop :=
+  forall s cm gt ow, G gt -> build_waveform a s cm = Ok ow ->
+  exists op, denote_atom a (lookup s) cm = Ok op /\
+             Forall2 leaf_matches (flatten_list (atomic_emit ow gt)) (map (ptr gt) (olist op)).
+
+Fixpoint atoms_ok (G : option trafo -> Prop) (p : pt) : Prop :=
+  match p with
+  | PAtom a => atom_ok G a
+  | PSeq l => (fix go (l : list pt) : Prop := match l with [] => True | x :: r => atoms_ok G x /\ go r end) l
+  | PRep _ b => atoms_ok G b
+  | PFor _ _ _ _ b => atoms_ok G b
+  | PMap _ _ b => atoms_ok G b
+  | PRev b => atoms_ok G b
+  | PPar b _ => atoms_ok G b
+  | PArith _ _ _ b => atoms_ok G b
+  end.
+
+(* guard: at most one transformation-creating node (parallel channel / scalar arithmetic) on every path *)
+Fixpoint guard_single_trafo (under : bool) (p : pt) : bool :=
+  match p with
+  | PAtom _ => true
+  | PSeq l => (fix go (l : list pt) : bool := match l with [] => true | x :: r => guard_single_trafo under x && go r end) l
+  | PRep _ b => guard_single_trafo under b
+  | PFor _ _ _ _ b => guard_single_trafo under b
+  | PMap _ _ b => guard_single_trafo under b
+  | PRev b => guard_single_trafo under b
+  | PPar b _ => negb under && guard_single_trafo true b
+  | PArith _ _ _ b => negb under && guard_single_trafo true b
+  end.
+
+(* no transformation-creating node at all *)
+Fixpoint no_trafo (p : pt) : bool :=
+  match p with
+  | PAtom _ => true
+  | PSeq l => (fix go (l : list pt) : bool := match l with [] => true | x :: r => no_trafo x && go r end) l
+  | PRep _ b => no_trafo b
+  | PFor _ _ _ _ b => no_trafo b
+  | PMap _ _ b => no_trafo b
+  | PRev b => no_trafo b
+  | PPar _ _ => false
+  | PArith _ _ _ _ => false
+  end.
+
+Definition is_some {A} (o : option A) : bool := match o with Some _ => true | None => false end.
+
+Lemma map_ptr_none l : map (ptr None) l = l.
+Proof. induction l; simpl; congruence. Qed.
+
+Lemma cp_denote (G : option trafo -> Prop) : forall p, atoms_ok G p ->
+  ((forall tr, G (Some tr)) \/ no_trafo p = true) -> forall s cm gt cs, G gt ->
+  guard_single_trafo (is_some gt) p = true -> cp p s cm gt = Ok cs ->
+  exists pcs, denote p (lookup s) cm = Ok pcs /\ Forall2 leaf_matches (flatten_list cs) (map (ptr gt) pcs).
+Proof.
+  induction p using pt_ind2; intros Hok HG s cm gt cs HGt Hg Hcp.
+  - (* atom *)
+    simpl in *. destruct (build_waveform a s cm) as [ow|e] eqn:E; simpl in Hcp; [|discriminate].
+    inversion Hcp; subst. destruct (Hok s cm gt ow HGt E) as (op & Hd & HF).
+    rewrite Hd. simpl. exists (olist op). split; [destruct op; reflexivity|exact HF].
+  - (* sequence *)
+    revert cs Hok HG Hg Hcp. induction H as [|x r Hx _ IH]; intros cs Hok HG Hg Hcp.
+    + simpl in *. inversion Hcp; subst. exists []. split; [reflexivity|constructor].
+    + simpl in Hok, Hg, Hcp. destruct Hok as (Hok1 & Hok2). apply andb_prop in Hg as (Hg1 & Hg2).
+      destruct (cp x s cm gt) as [a|e] eqn:E1; simpl in Hcp; [|discriminate].
+      match type of Hcp with (bind ?X _) = _ => destruct X as [b|e] eqn:E2 end; simpl in Hcp; [|discriminate].
+      inversion Hcp; subst.
+      assert (HG1 : (forall tr, G (Some tr)) \/ no_trafo x = true).
+      { destruct HG as [HG|HG]; [left; auto|right]. simpl in HG. apply andb_prop in HG. tauto. }
+      assert (HG2 : (forall tr, G (Some tr)) \/ no_trafo (PSeq r) = true).
+      { destruct HG as [HG|HG]; [left; auto|right]. simpl in HG. apply andb_prop in HG. simpl. tauto. }
+      destruct (Hx Hok1 HG1 s cm gt a HGt Hg1 E1) as (pa & Hda & HFa).
+      destruct (IH b Hok2 HG2 Hg2 E2) as (pb & Hdb & HFb).
+      exists (pa ++ pb). split.
+      * simpl. rewrite Hda. simpl. simpl in Hdb. rewrite Hdb. reflexivity.
+      * unfold flatten_list in *. rewrite flat_map_app, map_app. apply Forall2_app; auto.
+  - (* repetition *)
+    simpl in *. unfold evals in Hcp.
+    destruct (eval (lookup s) n) as [v|e]; simpl in *; [|discriminate].
+    destruct (to_int ENotInt v) as [k|e]; simpl in *; [|discriminate].
+    destruct (k <=? 0)%Z.
+    + inversion Hcp; subst. exists []. split; [reflexivity|constructor].
+    + destruct (cp p s cm gt) as [cs'|e] eqn:E; simpl in Hcp; [|discriminate].
+      destruct (IHp Hok HG s cm gt cs' HGt Hg E) as (pcs & Hd & HF). rewrite Hd. simpl.
+      exists (repeat_app (Z.to_nat k) pcs). split; [reflexivity|].
+      destruct cs' as [|c0 cr]; inversion Hcp; subst.
+      * apply Forall2_nil_map in HF. subst. clear. induction (Z.to_nat k); simpl; auto; constructor.
+      * unfold flatten_list at 1. simpl. rewrite app_nil_r. rewrite repeat_app_map.
+        apply Forall2_repeat_app. exact HF.
+  - (* for loop *)
+    simpl in *. unfold evals in Hcp.
+    destruct (eval (lookup s) a) as [va|e]; simpl in *; [|discriminate].
+    destruct (to_int EValue va) as [ka|e]; simpl in *; [|discriminate].
+    destruct (eval (lookup s) b) as [vb|e]; simpl in *; [|discriminate].
+    destruct (to_int EValue vb) as [kb|e]; simpl in *; [|discriminate].
+    destruct (eval (lookup s) c) as [vc|e]; simpl in *; [|discriminate].
+    destruct (to_int EValue vc) as [kc|e]; simpl in *; [|discriminate].
+    destruct (kc =? 0)%Z; [discriminate|].
+    revert cs Hcp. generalize (zrange ka kb kc) as rng. induction rng as [|j r IH]; intros cs Hcp.
+    + inversion Hcp; subst. exists []. split; [reflexivity|constructor].
+    + destruct (cp p (SRange s i j) cm gt) as [x|e] eqn:E1; simpl in Hcp; [|discriminate].
+      match type of Hcp with (bind ?X _) = _ => destruct X as [y|e] eqn:E2 end; simpl in Hcp; [|discriminate].
+      inversion Hcp; subst.
+      destruct (IHp Hok HG (SRange s i j) cm gt x HGt Hg E1) as (px & Hdx & HFx).
+      destruct (IH y eq_refl) as (py & Hdy & HFy).
+      exists (px ++ py). split.
+      * change (lookup (SRange s i j)) with (env_idx (lookup s) i j) in Hdx. rewrite Hdx. simpl. rewrite Hdy. reflexivity.
+      * unfold flatten_list in *. rewrite flat_map_app, map_app. apply Forall2_app; auto.
+  - (* mapping *)
+    simpl in *. destruct (IHp Hok HG (SMapped s pm) (cm_compose cm chm) gt cs HGt Hg Hcp) as (pcs & Hd & HF).
+    exists pcs. split; auto.
+  - (* time reversal *)
+    simpl in *. destruct (cp p s cm gt) as [cs'|e] eqn:E; simpl in Hcp; [|discriminate].
+    destruct (IHp Hok HG s cm gt cs' HGt Hg E) as (pcs & Hd & HF). rewrite Hd. simpl.
+    exists (rev (map mirror pcs)). split; [reflexivity|].
+    destruct cs' as [|c0 cr]; inversion Hcp; subst.
+    + apply Forall2_nil_map in HF. subst. constructor.
+    + unfold flatten_list at 1. cbn [flat_map]. rewrite app_nil_r.
+      change (flatten (Nest 1 _)) with (flatten (reverse_loop (Nest 1 (c0 :: cr)))). rewrite flatten_reverse.
+      rewrite flatten_nest. change (Z.to_nat 1) with 1%nat. cbn [repeat_app]. rewrite app_nil_r.
+      rewrite map_rev. apply Forall2_rev. apply Forall2_rev_leaves. exact HF.
+  - (* parallel channel *)
+    simpl in *. apply andb_prop in Hg as (Hu & Hg). destruct gt; [discriminate|].
+    destruct (par_values (lookup s) cm ow []) as [vals|e]; simpl in *; [|discriminate].
+    destruct HG as [HG|HG]; [|discriminate].
+    destruct (IHp Hok (or_introl HG) s cm (Some [TOver vals]) cs (HG _) Hg Hcp) as (pcs & Hd & HF). rewrite Hd. simpl.
+    eexists. split; [reflexivity|]. rewrite map_ptr_none. exact HF.
+  - (* scalar arithmetic *)
+    simpl in *. apply andb_prop in Hg as (Hu & Hg). destruct gt; [discriminate|].
+    destruct (arith_trafo (lookup s) cm l op sc (pt_chans p)) as [tr|e]; simpl in *; [|discriminate].
+    destruct HG as [HG|HG]; [|discriminate].
+    destruct (IHp Hok (or_introl HG) s cm (Some tr) cs (HG _) Hg Hcp) as (pcs & Hd & HF). rewrite Hd. simpl.
+    eexists. split; [reflexivity|]. rewrite map_ptr_none. exact HF.
+Qed.
+
+(* ---------------------------------------------------------------------------------------------------------- *)
+(* top level *)
+Definition plays (prog : loop) (pcs : list piece) : Prop :=
+  Forall2 leaf_matches (flatten prog) pcs /\ loop_dur prog == total pcs /\
+  forall c t, Forall (fun p => cmem c (pchans p) = true) pcs -> 0 <= t -> t < total pcs ->
+              oeq (play prog c t) (at_ pcs c t).
+
+Lemma create_program_denote (G : option trafo -> Prop) p env cm :
+  atoms_ok G p -> ((forall tr, G (Some tr)) \/ no_trafo p = true) -> G None ->
+  guard_single_trafo false p = true ->
+  forall r, create_program p env cm None = Ok r ->
+  exists pcs, denote_top p env cm = Ok pcs /\
+              match r with
+              | None => pcs = []
+              | Some prog => plays prog pcs
+              end.
+Proof.
+  intros Hok HG HN Hg r Hcp. unfold create_program in Hcp.
+  destruct (cp p (SDict env) (cm_of cm) None) as [cs|e] eqn:E; simpl in Hcp; [|discriminate].
+  destruct (cp_denote G p Hok HG (SDict env) (cm_of cm) None cs HN Hg E) as (pcs & Hd & HF).
+  rewrite map_ptr_none in HF.
+  exists pcs. split; [exact Hd|].
+  destruct cs as [|c0 cr]; inversion Hcp; subst.
+  - inversion HF. reflexivity.
+  - assert (HF' : Forall2 leaf_matches (flatten (Nest 1 (c0 :: cr))) pcs).
+    { rewrite flatten_nest. change (Z.to_nat 1) with 1%nat. cbn [repeat_app]. rewrite app_nil_r. exact HF. }
+    split; [exact HF'|]. split.
+    + apply leaves_dur_total. exact HF'.
+    + intros c t Hc H0 Ht. apply play_at; auto.
+Qed.
+
+(* ---- the atomic obligation discharged for single-channel constant atoms (no enclosing transformation) ---- *)
+Lemma atom_ok_const1 d c e : atom_ok (fun gt => gt = None) (AConst d [(c, e)]).
+Proof.
+  intros s cm gt ow HG Hb. subst gt. simpl in Hb. unfold build_const, evals in Hb. simpl.
+  destruct (eval (lookup s) d) as [dv|er]; simpl in *; [|discriminate].
+  destruct (Qltb' 0 dv) eqn:Ed.
+  - destruct (cm c) as [m|].
+    + simpl in *. destruct (eval (lookup s) e) as [v|er]; simpl in *; [|discriminate].
+      inversion Hb; subst. eexists. split; [reflexivity|].
+      simpl. unfold flatten_list. simpl. change (Z.to_nat 1) with 1%nat. simpl.
+      constructor; [|constructor].
+      apply Qltb'_true in Ed.
+      repeat split; simpl; auto; try reflexivity.
+      intros ch t Hin _ _. rewrite orb_false_r in Hin. rewrite Hin. simpl. reflexivity.
+    + simpl in *. inversion Hb; subst. eexists. split; [reflexivity|]. constructor.
+  - inversion Hb; subst. eexists. split; [reflexivity|]. constructor.
+Qed.
+
+(* the core fragment: single-channel constants under sequence / repetition / for-loop / mapping / reversal *)
+Fixpoint core (p : pt) : bool :=
+  match p with
+  | PAtom (AConst _ [_]) => true
+  | PAtom _ => false
+  | PSeq l => (fix go (l : list pt) : bool := match l with [] => true | x :: r => core x && go r end) l
+  | PRep _ b => core b
+  | PFor _ _ _ _ b => core b
+  | PMap _ _ b => core b
+  | PRev b => core b
+  | PPar _ _ => false
+  | PArith _ _ _ _ => false
+  end.
+
+Lemma core_ok : forall p, core p = true ->
+  atoms_ok (fun gt => gt = None) p /\ no_trafo p = true /\ guard_single_trafo false p = true.
+Proof.
+  induction p using pt_ind2; intros Hc; simpl in *; auto; try discriminate.
+  - destruct a; try discriminate. destruct amps as [|[c e] [|? ?]]; try discriminate.
+    repeat split; auto. apply atom_ok_const1.
+  - induction H as [|x r Hx _ IH]; simpl; auto.
+    apply andb_prop in Hc as (H1 & H2). destruct (Hx H1) as (A & B & C). destruct (IH H2) as (A' & B' & C').
+    rewrite B, C. simpl. repeat split; auto.
+Qed.
+
+(* ---- known finding (ii): the faithful model of the unchanged code violates the property ---- *)
+Definition witness_par_order : pt :=
+  PArith true SMul (inl (EC 2))
+         (PPar (PAtom (AConst (EC 1) [(ChS 1, EC (1 # 2))])) [(ChS 2, EC 1)]).
+
+Lemma par_order_refuted :
+  exists prog pcs, create_program witness_par_order [] [] None = Ok (Some prog) /\
+                   denote_top witness_par_order [] [] = Ok pcs /\
+                   Qeq_bool (total pcs) 1 = true /\
+                   play prog (ChS 2) 0 = Some 1 /\ at_ pcs (ChS 2) 0 = Some (2 # 1) /\
+                   guard_single_trafo false witness_par_order = false.
+Proof.
+  eexists. eexists. split; [vm_compute; reflexivity|]. split; [vm_compute; reflexivity|].
+  vm_compute. repeat split; reflexivity.
+Qed.
+
+(* guard of known finding (ii) only: no parallel-channel node inside the body of a transformation-creating node *)
+Fixpoint guard_C01_par_order (under : bool) (p : pt) : bool :=
+  match p with
+  | PAtom _ => true
+  | PSeq l => (fix go (l : list pt) : bool := match l with [] => true | x :: r => guard_C01_par_order under x && go r end) l
+  | PRep _ b => guard_C01_par_order under b
+  | PFor _ _ _ _ b => guard_C01_par_order under b
+  | PMap _ _ b => guard_C01_par_order under b
+  | PRev b => guard_C01_par_order under b
+  | PPar b _ => negb under && guard_C01_par_order true b
+  | PArith _ _ _ b => guard_C01_par_order true b
+  end.
+
+Lemma atom_ok_zero_const amps : atom_ok (fun _ => True) (AConst (EC 0) amps).
+Proof.
+  intros s cm gt ow _ Hb. simpl in *. unfold build_const, evals in Hb. simpl in Hb.
+  inversion Hb; subst. eexists. split; [reflexivity|]. constructor.
+Qed.
